@@ -2,11 +2,9 @@ package main
 
 import (
 	"fmt"
-	"runtime"
 	"sort"
 	"strings"
 	"sync"
-	"sync/atomic"
 	"time"
 
 	"github.com/safing/portbase/database"
@@ -61,6 +59,10 @@ type writerRun struct {
 	keys    map[string]*keyState
 	ops     []*opRec
 	counter int
+	// tainted: key|token pairs whose deliveries cannot be attributed any more because
+	// an operation on the key panicked half-way (storage written, not all subscribers
+	// notified, model state unknown). The panic itself is the reported violation.
+	tainted map[string]bool
 }
 
 type subRun struct {
@@ -88,14 +90,13 @@ type subRun struct {
 }
 
 type run struct {
-	w           *world
-	sc          *Scenario
-	writers     []*writerRun
-	subs        []*subRun
-	progress    atomic.Int64
-	writersDone atomic.Bool
-	inconcl     []string
-	mu          sync.Mutex
+	w       *world
+	sc      *Scenario
+	writers []*writerRun
+	subs    []*subRun
+	gate    *gate
+	inconcl []string
+	mu      sync.Mutex
 }
 
 func (r *run) inconclusive(format string, a ...any) {
@@ -197,19 +198,23 @@ func (wr *writerRun) do(r *run, op *OpSpec) *opRec {
 	if rec.OK {
 		after()
 	}
-	r.progress.Add(1)
+	if pnc != "" {
+		if wr.tainted == nil {
+			wr.tainted = map[string]bool{}
+		}
+		if st != nil {
+			wr.tainted[key+"|"+st.token] = true
+		}
+		if rec.Token != "" {
+			wr.tainted[key+"|"+rec.Token] = true
+		}
+		delete(wr.keys, key) // unknown until the next successful put
+	}
+	r.gate.add()
 	return rec
 }
 
-func (r *run) waitProgress(n int) {
-	for i := 0; r.progress.Load() < int64(n) && !r.writersDone.Load(); i++ {
-		if i%8 == 7 {
-			time.Sleep(20 * time.Microsecond)
-		} else {
-			runtime.Gosched()
-		}
-	}
-}
+func (r *run) waitProgress(n int) { r.gate.wait(n) }
 
 // ---------------------------------------------------------------------------------
 // subscriptions
@@ -326,7 +331,7 @@ func (r *run) subControl(s *subRun, wg *sync.WaitGroup) {
 }
 
 func newRun(w *world, sc *Scenario) *run {
-	r := &run{w: w, sc: sc}
+	r := &run{w: w, sc: sc, gate: newGate()}
 	for i := range sc.Writers {
 		ws := &sc.Writers[i]
 		r.writers = append(r.writers, &writerRun{spec: ws, iface: ws.Iface.open(), keys: map[string]*keyState{}})
@@ -422,7 +427,7 @@ func runSubs(w *world, sc *Scenario) *run {
 		}()
 	}
 	wwg.Wait()
-	r.writersDone.Store(true)
+	r.gate.finish()
 	cwg.Wait()
 	r.finishSubs()
 	return r
@@ -659,6 +664,14 @@ func (r *run) judge(b *vlib.Batch) {
 		for _, g := range gorder {
 			idxs := occ[g]
 			cands := groups[g]
+			tainted := false
+			if wr := byWriter[g.w]; wr != nil && wr.tainted[g.key+"|"+g.token] {
+				tainted = true
+				b.Count("deliveries_unattributable_after_panic", int64(len(idxs)))
+			}
+			if tainted && len(cands) == 0 {
+				continue
+			}
 			if len(cands) == 0 {
 				// which write is this?
 				reason, kind := "unknown-record", "none"
@@ -696,6 +709,9 @@ func (r *run) judge(b *vlib.Batch) {
 				}
 			}
 			k := len(idxs)
+			if k > len(nonforb) && tainted {
+				k = len(nonforb)
+			}
 			if k > len(nonforb) {
 				if k <= len(cands) {
 					f := forb[0]
